@@ -170,8 +170,9 @@ func (g *gen) expr(k vkind, d int) string {
 			n := 2 + g.r.Intn(4)
 			parts := make([]string, n)
 			for i := range parts {
+				// operands are literals and numbers only: a string variable here could double in a loop
 				if g.r.Chance(50) {
-					parts[i] = g.atom(kStr)
+					parts[i] = strLits[g.r.Intn(len(strLits))]
 				} else {
 					parts[i] = g.paren(g.expr(kNum, d-1))
 				}
@@ -225,6 +226,20 @@ func (g *gen) expr(k vkind, d int) string {
 }
 
 func (g *gen) paren(s string) string { return "(" + s + ")" }
+
+// smallIndex is a numeric index expression whose value stays small (a huge positive integer key
+// makes RawSetInt allocate the whole array part up to it).
+func (g *gen) smallIndex(d int) string {
+	switch g.r.Intn(4) {
+	case 0:
+		return fmt.Sprint(g.r.Intn(300))
+	case 1:
+		if v, ok := g.pickVar(kNum); ok {
+			return v + " % 50"
+		}
+	}
+	return "(" + g.expr(kNum, d) + ") % 64 + 1"
+}
 
 func (g *gen) atom(k vkind) string {
 	if v, ok := g.pickVar(k); ok && g.r.Chance(65) {
@@ -284,7 +299,7 @@ func (g *gen) index(d int) string {
 	case 0:
 		return t + "." + fieldNames[g.r.Intn(len(fieldNames))]
 	case 1:
-		return fmt.Sprintf("%s[%s]", t, g.expr(kNum, d))
+		return fmt.Sprintf("%s[%s]", t, g.smallIndex(d))
 	case 2:
 		return fmt.Sprintf("%s[ %s ]", t, g.atom(kStr))
 	}
@@ -364,7 +379,7 @@ func (g *gen) table(d int) string {
 		case 3:
 			parts = append(parts, fmt.Sprintf("%s = %s", fieldNames[g.r.Intn(len(fieldNames))], g.expr(kAny, min(d, 1))))
 		case 4:
-			parts = append(parts, fmt.Sprintf("[%s] = %s", g.expr(kNum, min(d, 1)), g.expr(kAny, min(d, 1))))
+			parts = append(parts, fmt.Sprintf("[%s] = %s", g.smallIndex(min(d, 1)), g.expr(kAny, min(d, 1))))
 		case 5:
 			if d > 0 {
 				parts = append(parts, g.table(d-1))
